@@ -23,6 +23,18 @@
 //! press variants: no later key is; release variants: keys pressed before that first release are
 //! (iff in time), no key pressed after it is. Families (g)/(h) also judge every schedule of part 1
 //! that has this form.
+//! Part 4 (systematic; gaps and random orders from the seed; c06_restack.rs): the SAME one, two or
+//! three one-shot keys (key, output chord, layer in three assignments; three timeouts) pressed 15..=20
+//! or 33 times (thorough: 14..=40) within ONE activation - round-robin, random order, blocks, one long
+//! run followed by the others - so that
+//! the 16-entry table overflows and the pushed-out entry belongs to a key that is still active; all
+//! four end variants; then a plain key in time or after the timeout, a second plain key and a late
+//! probe, with the last one-shot press released or HELD. Judged off the OS stream by the statement:
+//! the first following key is modified by exactly the one-shots still active (+ the held key), later
+//! keys only by a key that is physically held, a held one-shot key stays down while it is held.
+//! Two defects of the unchanged tree in that area are recorded as known findings under signatures
+//! with a structural precondition (findings/C06-overflow-release-of-held-key-deferred.md,
+//! findings/C06-deferred-release-list-overflow.md).
 
 use super::c04::util::*;
 use crate::core::rng::Rng;
@@ -33,6 +45,9 @@ use std::collections::VecDeque;
 
 pub struct C06Check;
 pub static C06: C06Check = C06Check;
+
+#[path = "c06_restack.rs"]
+mod restack;
 
 // ------------------------------------------------------------------ configuration description
 
@@ -816,11 +831,12 @@ struct Res2 {
     verdict: Result<(), Bad>,
     first_key_mods: u64,
     overflowed: bool,
+    first_key_set_checked: bool,
 }
 
 fn run2(pl: &Plan2, text: &str, h: &[Ev], full_checks: bool) -> Option<Res2> {
     let mut sim = Sim::new(text).ok()?;
-    let mut r = Res2 { realized: vec![], outs: vec![], max_stack: 0, max_queue: 0, verdict: Ok(()), first_key_mods: 0, overflowed: false };
+    let mut r = Res2 { realized: vec![], outs: vec![], max_stack: 0, max_queue: 0, verdict: Ok(()), first_key_mods: 0, overflowed: false, first_key_set_checked: false };
     let mut repress: Option<u64> = None;
     let mut step = |sim: &mut Sim, r: &mut Res2| {
         sim.tick();
@@ -918,8 +934,12 @@ fn run2(pl: &Plan2, text: &str, h: &[Ev], full_checks: bool) -> Option<Res2> {
         // first following key: sees the most recent (at most 16) distinct one-shots
         let first = &ctx[0];
         r.first_key_mods = first.2.len() as u64;
+        // (repeated taps are judged for the set of active one-shots in part 4, where nothing is queued
+        // when a key goes down; here up to 26 events may be pending and the release of a pushed-out
+        // entry is queued behind them)
         if pl.distinct {
             let active: Vec<usize> = pl.taps.iter().rev().take(16).copied().collect();
+            r.first_key_set_checked = true;
             let mut want: Vec<u16> = vec![];
             let mut layer = 0usize;
             for k in &active {
@@ -1024,6 +1044,11 @@ fn fol_k(tier: Tier) -> usize {
 }
 fn n_fol_cases(tier: Tier) -> u64 {
     param_sets_fol(tier).len() as u64 * FOL_SUB
+}
+/// part 4: one case per (number of one-shot keys, variant, kind assignment, T, rapid-event-delay);
+/// thorough repeats every case with three more gap / order streams
+fn n_restack_cases(tier: Tier) -> u64 {
+    restack::param_sets4().len() as u64 * tier.sel(1, 4)
 }
 const FOL_PREFIX_NAMES: [&str; 4] = ["tap0", "tap1", "held", "preheld"];
 
@@ -1344,7 +1369,7 @@ impl C06Check {
         if pl.overlap {
             out.inc("histories_stacked_overlapping_followers");
         }
-        if pl.distinct && !pl.pure_expiry && !pl.overlap {
+        if r.first_key_set_checked {
             out.inc("first_key_set_checks");
         }
         out.inc(&format!("stacked_variant:{}", if pl.cfg.mixed { "mixed" } else { pl.cfg.ends[0].name(false) }));
@@ -1360,12 +1385,97 @@ impl C06Check {
     }
 }
 
+impl C06Check {
+    /// part 4: the same 1-3 one-shot keys pressed again and again (see c06_restack.rs)
+    fn run_restack(&self, ctx: &Ctx, case: u64, out: &mut CaseOut) {
+        let n = restack::per_case(ctx.tier);
+        // at most two witnesses per signature and case (a recorded class must not use up the room of another one)
+        let mut reported: Vec<(String, u32)> = vec![];
+        for sub in 0..n {
+            let pl = restack::plan4(ctx.seed, ctx.tier, case, sub);
+            let text = pl.cfg.render();
+            let Some(r) = restack::run4(&pl, &text) else {
+                out.violate("C06:config-rejected", "re-tapped one-shot configuration rejected", json!({"config": text, "history": "", "observed": "parse error", "expected": "accepted"}));
+                return;
+            };
+            if ctx.verbose {
+                eprintln!("config:\n{text}\nhistory: {}\nending: {} held-press-pushed-out-own-entry: {} more-than-16-releases-deferred: {}\nverdict: {:?}", render_hist(&r.realized), pl.ending.name(), r.own_entry_pushed_out, r.release_list_overflowed, r.verdict);
+            }
+            let pc = pl.cfg.end.is_pc();
+            out.inc("schedules");
+            out.inc("restack_histories");
+            out.inc(&format!("restack_keys:{}", pl.nkeys));
+            out.inc(&format!("restack_ending:{}", pl.ending.name()));
+            out.inc(&format!("restack_variant:{}", pl.cfg.end.name(false)));
+            out.max("restack_table_len", r.max_stack);
+            out.max("restack_queue_len", r.max_queue);
+            out.max("restack_modifiers_on_first_key", r.first_key_mods);
+            if pl.taps.len() > 16 {
+                out.inc("restack_histories_more_than_16_presses");
+            }
+            if r.max_stack >= 16 {
+                out.inc("restack_histories_table_full");
+            }
+            let pushed = restack::pushed_out_while_active(&pl.taps, pc);
+            out.count("restack_entries_of_active_keys_pushed_out", pushed);
+            if pushed > 0 {
+                out.inc("restack_histories_entry_of_active_key_pushed_out");
+                out.inc(&format!("restack_entry_of_active_key_pushed_out_keys:{}", pl.nkeys));
+                if pl.ending.held() {
+                    out.inc("restack_histories_entry_of_active_key_pushed_out_then_held");
+                }
+            }
+            if pc && restack::table_after(&pl.taps, true).len() < restack::table_after(&pl.taps, false).len().min(pl.nkeys) {
+                out.inc("restack_pcancel_ended_by_repress");
+            }
+            if r.first_key_checked {
+                out.inc("restack_first_key_checks");
+                if pushed > 0 && !pl.ending.late() {
+                    out.inc("restack_first_key_checks_after_active_entry_pushed_out");
+                }
+            }
+            out.count("restack_held_key_checks", r.held_checks);
+            if r.own_entry_pushed_out {
+                out.inc("restack_held_press_pushed_out_its_own_entry");
+            }
+            if r.release_list_overflowed {
+                out.inc("restack_more_than_16_releases_deferred");
+            }
+            out.count("restack_ticks_waited_for_empty_queue", r.waited);
+            if let Err(b) = &r.verdict {
+                let seen = match reported.iter_mut().find(|x| x.0 == b.sig) {
+                    Some(x) => {
+                        x.1 += 1;
+                        x.1
+                    }
+                    None => {
+                        reported.push((b.sig.clone(), 1));
+                        1
+                    }
+                };
+                out.inc("restack_histories_violating");
+                if seen <= 2 {
+                    let obs: Vec<String> = r.outs.iter().map(|o| format!("@{}: {}{}", o.0, if o.1 { "↓" } else { "↑" }, code_name(o.2))).collect();
+                    out.violate(b.sig.clone(), b.what.clone(), json!({"part": "restack", "config": text, "params": pl.cfg.label(), "history": render_hist(&r.realized),
+                        "pressed_one_shot_keys": pl.taps.iter().map(|k| restack::RS_PHYS[*k]).collect::<String>(), "ending": pl.ending.name(), "observed": obs,
+                        "expected": "the first following key is modified by exactly the one-shots that are still active (keys among the 16 most recent presses, in time; pcancel: nothing after a re-press) plus the held key; second key and probe only by a physically held key; a held one-shot key stays down while held; nothing down or pending at the end"}));
+                }
+            }
+            out.tag(format!("R:{}:{}:{}:{}:{}:{}", pl.nkeys, pl.cfg.label(), pl.total, restack::PATTERNS[pl.pattern], pl.ending.name(), pushed > 0));
+            if case % 50 == 7 && sub == n / 2 + 2 {
+                out.sample = Some(json!({"part": "restack", "config": text, "history": render_hist(&r.realized), "ending": pl.ending.name()}));
+            }
+        }
+        out.inc("restack_cases");
+    }
+}
+
 impl Check for C06Check {
     fn id(&self) -> &'static str {
         "C06"
     }
     fn n_cases(&self, ctx: &Ctx) -> u64 {
-        n_exh_cases(ctx.tier) + n_random(ctx.tier) + n_fol_cases(ctx.tier)
+        n_exh_cases(ctx.tier) + n_random(ctx.tier) + n_fol_cases(ctx.tier) + n_restack_cases(ctx.tier)
     }
     fn describe(&self, ctx: &Ctx, idx: u64) -> Value {
         if idx < n_exh_cases(ctx.tier) {
@@ -1374,6 +1484,10 @@ impl Check for C06Check {
         } else if idx < n_exh_cases(ctx.tier) + n_random(ctx.tier) {
             let pl = plan2(ctx.seed, idx);
             json!({"part": "stacked", "config": pl.cfg.render(), "history": render_hist(&pl.hist)})
+        } else if idx >= n_exh_cases(ctx.tier) + n_random(ctx.tier) + n_fol_cases(ctx.tier) {
+            let case = idx - n_exh_cases(ctx.tier) - n_random(ctx.tier) - n_fol_cases(ctx.tier);
+            let pl = restack::plan4(ctx.seed, ctx.tier, case, 0);
+            json!({"part": "restack", "config": pl.cfg.render(), "one_shot_keys_used": pl.nkeys, "histories": restack::per_case(ctx.tier), "presses": restack::totals(ctx.tier)})
         } else {
             let j = idx - n_exh_cases(ctx.tier) - n_random(ctx.tier);
             let p = param_sets_fol(ctx.tier)[(j / FOL_SUB) as usize].clone();
@@ -1389,13 +1503,15 @@ impl Check for C06Check {
             self.run_exhaustive(ctx, idx, &mut out);
         } else if idx < n2 {
             self.run_stacked(ctx, idx, &mut out);
-        } else {
+        } else if idx < n2 + n_fol_cases(ctx.tier) {
             self.run_followers(ctx, idx - n2, &mut out);
+        } else {
+            self.run_restack(ctx, idx - n2 - n_fol_cases(ctx.tier), &mut out);
         }
         out
     }
     fn rule(&self) -> String {
-        "Part 1 (exhaustive, seed-independent): physical keys a b c in three shapes (two one-shot keys lsft / lctl + plain c; one-shot layer-while-held + two plain keys with distinct outputs per layer; one-shot output chord C-lalt + one-shot layer + plain c), all one-shot keys of one end variant; 4 variants x T in {3,80} (thorough {2,3,9,80}) x rapid-event-delay {5,0,1}; EVERY physically consistent schedule of 2..=N events (N = 5 for small T, 4 for T=80 plus the five-event family schedules, in quick; 6 / 5 in thorough) with every gap in {0,1,T-1,T,T+1}; keys still down are released T+4 ticks after the last event. Judged: per-tick equality with the one-shot reference model; nothing down / active / queued after the drain; and on the schedule families (tap, key, key-again), (tap alone), (hold, key, key, release), (tap, tap again, key), (tap, tap other one-shot, key) the statement is read directly off the OS stream: 'modified' = the one-shot's keys are down when the key's press is written (key / chord) or the key resolved on the one-shot layer. Part 2 (random, invariants only): 20 one-shot keys (keys, chords, two layers; one variant or mixed variants) + 2 plain keys, T in {30,200}; 17-40 one-shot taps in a row, then key, second key, and a probe key long after the timeout: the first key must see exactly the 16 most recent one-shots when the taps were distinct, the second key and the probe must be plain, nothing may be down, active or queued at the end, no crash; in a third of the histories the two plain keys overlap instead (first key down, second key down, second key released, second key pressed again, released, first key released) and that second press of the second key must be plain (the one-shots ended at the first key's press or at the second key's release, whatever the variant). Part 3 (exhaustive, seed-independent): shapes with ONE one-shot key (lsft; layer-while-held; output chord C-lalt) and TWO plain keys b c, 4 variants x T in {3,80} (thorough {2,3,9,80}) x rapid-event-delay {5,0,1}; prefix = one-shot tapped with its release 0 or 1 ticks later / one-shot held until the end / b pressed one tick before the one-shot is tapped; then EVERY sequence of 2..=K events (K = 5 quick, 6 thorough) over the two plain keys (each event toggles its key: all press/release interleavings incl. later-pressed-released-first, earlier-pressed-released-first, re-presses), first follow-up event after every gap in {0,1,T-1,T,T+1}, every other one after every gap in {0,1,rapid-event-delay+1}; keys still down are released T+4 ticks after the last event. Judged: per-tick equality with the reference model, whose release variants end in the tick after the first release of ANY key pressed after the one-shot (not only the first-pressed one) and never at the release of a key held since before it; clean end; and families (g)/(h) read off the OS stream without the model: one-shot held -> every follow-up press modified; tapped -> first follow-up press modified iff processed before tick x+T (x = tick of the one-shot press); press variants: no later press modified; release variants: a press before the first release of a key pressed after the one-shot is modified iff in time, a press after that release is never modified. (g)/(h) are also applied to every part-1 schedule of this form. distinct_nontrivial = (parameter set, key sequence) for parts 1 and 3, (variant, T, delay, taps, distinct) for part 2.".into()
+        "Part 1 (exhaustive, seed-independent): physical keys a b c in three shapes (two one-shot keys lsft / lctl + plain c; one-shot layer-while-held + two plain keys with distinct outputs per layer; one-shot output chord C-lalt + one-shot layer + plain c), all one-shot keys of one end variant; 4 variants x T in {3,80} (thorough {2,3,9,80}) x rapid-event-delay {5,0,1}; EVERY physically consistent schedule of 2..=N events (N = 5 for small T, 4 for T=80 plus the five-event family schedules, in quick; 6 / 5 in thorough) with every gap in {0,1,T-1,T,T+1}; keys still down are released T+4 ticks after the last event. Judged: per-tick equality with the one-shot reference model; nothing down / active / queued after the drain; and on the schedule families (tap, key, key-again), (tap alone), (hold, key, key, release), (tap, tap again, key), (tap, tap other one-shot, key) the statement is read directly off the OS stream: 'modified' = the one-shot's keys are down when the key's press is written (key / chord) or the key resolved on the one-shot layer. Part 2 (random, invariants only): 20 one-shot keys (keys, chords, two layers; one variant or mixed variants) + 2 plain keys, T in {30,200}; 17-40 one-shot taps in a row, then key, second key, and a probe key long after the timeout: the first key must see exactly the 16 most recent one-shots when the taps were distinct, the second key and the probe must be plain, nothing may be down, active or queued at the end, no crash; in a third of the histories the two plain keys overlap instead (first key down, second key down, second key released, second key pressed again, released, first key released) and that second press of the second key must be plain (the one-shots ended at the first key's press or at the second key's release, whatever the variant). Part 3 (exhaustive, seed-independent): shapes with ONE one-shot key (lsft; layer-while-held; output chord C-lalt) and TWO plain keys b c, 4 variants x T in {3,80} (thorough {2,3,9,80}) x rapid-event-delay {5,0,1}; prefix = one-shot tapped with its release 0 or 1 ticks later / one-shot held until the end / b pressed one tick before the one-shot is tapped; then EVERY sequence of 2..=K events (K = 5 quick, 6 thorough) over the two plain keys (each event toggles its key: all press/release interleavings incl. later-pressed-released-first, earlier-pressed-released-first, re-presses), first follow-up event after every gap in {0,1,T-1,T,T+1}, every other one after every gap in {0,1,rapid-event-delay+1}; keys still down are released T+4 ticks after the last event. Judged: per-tick equality with the reference model, whose release variants end in the tick after the first release of ANY key pressed after the one-shot (not only the first-pressed one) and never at the release of a key held since before it; clean end; and families (g)/(h) read off the OS stream without the model: one-shot held -> every follow-up press modified; tapped -> first follow-up press modified iff processed before tick x+T (x = tick of the one-shot press); press variants: no later press modified; release variants: a press before the first release of a key pressed after the one-shot is modified iff in time, a press after that release is never modified. (g)/(h) are also applied to every part-1 schedule of this form. Part 4 (systematic in its structure, seed-dependent in gaps / random orders): physical keys a b c = three one-shot keys of one end variant with timeouts T, T+5, T+11 (assignments lsft | C-lalt | ralt; layer l1 | lsft | C-lalt; C-lalt | layer l1 | layer l2) + plain keys u v with distinct outputs per layer; 4 variants x T in {20,200} x rapid-event-delay {5,0,1} x the first 1, 2 or 3 one-shot keys used; for every total of 15,16,17,18,19,20,33 presses (thorough: every total 14..=40, four gap streams) x order {round-robin, random, blocks of 1-9, one key for all but the last 15 presses and the others in turn for those} x ending {tap/in-time, tap/late, held/in-time, held/late}: the keys are pressed that often in a row, press-to-release gap 0-2, release-to-press gap 0-3 ticks (the driver lets time pass until nothing is queued before every press, so every press is within the timeout of the previous one and meets a table that saw everything before it); then the first plain key 1-3 ticks later (in time) or timeout+3.. ticks later (late), released after 1-12 ticks, the second plain key rapid-event-delay+3.. ticks later, with a held ending the release of the one-shot key after that, and a probe key long after the timeout. Judged off the OS stream, no model of kanata involved except that the table holds 16 entries: expected active set = keys among the 16 most recent presses (non-pcancel; every press stacks) / the keys pressed since the last re-press of an active key (pcancel; a re-press ends everything); first key = exactly that set's key codes held and the most recently pressed active layer (late: nothing), plus the held key's own; second key and probe: only the held key's; with a held ending the held key's codes must be down from the tick its press was processed until its physical release; nothing down, active or queued at the end; all three plain presses written. distinct_nontrivial = (parameter set, key sequence) for parts 1 and 3, (variant, T, delay, taps, distinct) for part 2, (keys used, parameter set, presses, order, ending, active entry pushed out) for part 4.".into()
     }
     fn assumptions(&self) -> Vec<String> {
         vec![
@@ -1405,6 +1521,11 @@ impl Check for C06Check {
             "part 3 enumerates the follow-up keys' events only over the two plain keys; re-presses of the one-shot key between follow-up events are covered by part 1 up to its N".into(),
             "the guide says the first activated one-shot's variant governs a stack while the code uses the most recent one; stacks of mixed variants are therefore judged only by the variant-independent invariants (second key, probe, clean end)".into(),
             "fewer than 32 events pending (the stacked driver lets time pass when the queue reaches 27), at most 8 one-shot layer taps per history (fewer than 12 held layers)".into(),
+            "part 4: nothing is queued when a one-shot key goes down (the driver waits for the queue to drain, at most a few ticks; the realized history is in the witness), because the release kanata queues for a pushed-out table entry is processed behind whatever is already pending; repeated taps under a backlog (part 2, up to 26 events pending) are therefore judged only by the second key / probe / clean-end invariants unless the taps were distinct".into(),
+            "part 4: 'in time' means pressed 1-3 ticks after everything before it was processed, 'late' means at least timeout+3 ticks after the last one-shot press was processed; the exact expiry tick is judged in parts 1 and 3 only".into(),
+            "part 4: the table of active one-shots holds the 16 most recent presses (same convention as part 2: a key none of whose presses is among them is no longer expected to apply) and the layout holds 64 key / layer states: histories are cut so that the pressed one-shot keys hold at most 56 key codes / layers at a time (33 presses of a two-key chord become 28)".into(),
+            "part 4, recorded defects of the unchanged tree (known findings, each under a signature whose precondition is computed from the history alone): (1) the last press is held, it is at least the 17th, and the table entry it pushes out belongs to the same key -> the held key goes up when the one-shot ends; judged as known only if the key stays down as long as the one-shot is active (a key that goes up earlier has the live signature held-key-up-while-one-shot-active); (2) more than 16 releases are deferred (physical releases of tapped keys + one per pushed-out entry of a still active key) -> the key whose deferred release is the oldest loses its state; judged as known only if the first key shows exactly the expected set minus those keys and every such key kept its key codes down until the press of the tap that made the list overflow went in (a key that goes up earlier has the live signature first-key-misses-active-one-shots)".into(),
+            "part 4 does not hold a one-shot key from the start of the stack while others are tapped 16 times (the pushed-out entry of a physically held key), and does not mix variants".into(),
             "one kanata instance runs all schedules of an exhaustive case, each followed by a drain until the model is quiescent; a disagreement is re-judged on a fresh instance".into(),
         ]
     }
@@ -1429,6 +1550,28 @@ impl Check for C06Check {
             ("follower_orders_earlier_pressed_released_first_then_press", 1_000),
             ("ended_by_release_of_later_pressed_follower", 20_000),
             ("preheld_key_releases_not_ending", 50_000),
+            ("restack_histories", ctx.tier.sel(20_000, 300_000)),
+            ("restack_keys:1", ctx.tier.sel(6_000, 100_000)),
+            ("restack_keys:2", ctx.tier.sel(6_000, 100_000)),
+            ("restack_keys:3", ctx.tier.sel(6_000, 100_000)),
+            ("restack_histories_more_than_16_presses", 10_000),
+            ("restack_histories_table_full", 5_000),
+            ("max_restack_table_len", 16),
+            ("restack_histories_entry_of_active_key_pushed_out", 5_000),
+            ("restack_entry_of_active_key_pushed_out_keys:1", 1_500),
+            ("restack_entry_of_active_key_pushed_out_keys:2", 1_500),
+            ("restack_entry_of_active_key_pushed_out_keys:3", 1_500),
+            ("restack_histories_entry_of_active_key_pushed_out_then_held", 2_000),
+            ("restack_first_key_checks", 10_000),
+            ("restack_first_key_checks_after_active_entry_pushed_out", 1_500),
+            ("restack_held_key_checks", 5_000),
+            ("restack_pcancel_ended_by_repress", 3_000),
+            ("restack_held_press_pushed_out_its_own_entry", 1_000),
+            ("restack_more_than_16_releases_deferred", 20),
+            ("restack_ending:tap-in-time", 4_000),
+            ("restack_ending:tap-late", 4_000),
+            ("restack_ending:held-in-time", 4_000),
+            ("restack_ending:held-late", 4_000),
         ]
     }
     fn exhaustive(&self, _ctx: &Ctx) -> bool {
